@@ -202,6 +202,10 @@ def run_cli_output(directory, path, seed, extra_env, tag):
     """`python -m statham --input <doc> --output <file>`: the bytes written must not depend on the
     process either (hash seed, and the locale the process inherits)."""
     out_path = os.path.join(directory, f"out_{tag}_{os.path.basename(path)}.py")
+    if tag == 2:
+        # regeneration: the file is already there, from an earlier and much longer module
+        with open(out_path, "w", encoding="utf8") as handle:
+            handle.write("# left over from an earlier generation\n" * 2000)
     env = dict(os.environ, PYTHONHASHSEED=seed, PYTHONPATH=bootstrap.REPO, PYTHONDONTWRITEBYTECODE="1", **extra_env)
     proc = subprocess.run(
         [bootstrap.PYTHON, "-W", "ignore", "-m", "statham", "--input", path, "--output", out_path],
